@@ -269,13 +269,18 @@ func (e *Environment) Get(name string) (Object, bool) {
 	if e.function != nil && e.function.Name != nil && name == e.function.Name.Literal() {
 		return *e.function, true
 	}
+	return e.getVar(name)
+}
+
+// getVar finds what is bound to name (what an assignment to name replaces), Get without self and the function's own name.
+func (e *Environment) getVar(name string) (Object, bool) {
 	obj, ok := e.store[name]
 	if ok {
 		if r, isRef := obj.(Reference); isRef {
 			if _, alive := r.RefEnv.store[r.Name]; !alive {
 				// The variable this reference points to was deleted: forget the stale reference and look again.
 				delete(e.store, name)
-				return e.Get(name)
+				return e.getVar(name)
 			}
 		}
 		// using references to non constant (extensions are constants) implies uncacheable.
@@ -463,7 +468,7 @@ func (e *Environment) Set(name string, val Object) Object {
 
 func (e *Environment) CreateOrSet(name string, val Object, create bool) Object {
 	if Constant(name) {
-		old, ok := e.Get(name) // not ok
+		old, ok := e.getVar(name) // (the binding: inside func K() the name K reads as the function whatever K is bound to.)
 		if ok {
 			log.Infof("Attempt to change constant %s from %v to %v", name, old, val)
 			if !Identical(old, val) {
